@@ -940,7 +940,7 @@ func genBuiltinDeferWrapper(n *node, in, out []func(*frame) reflect.Value, fn fu
 			val := make([]reflect.Value, len(in)+1)
 			inTypes := make([]reflect.Type, len(in))
 			for i, v := range in {
-				val[i+1] = v(f)
+				val[i+1] = fixArg(v(f))
 				inTypes[i] = val[i+1].Type()
 			}
 			outTypes := make([]reflect.Type, len(out))
@@ -969,6 +969,19 @@ func genBuiltinDeferWrapper(n *node, in, out []func(*frame) reflect.Value, fn fu
 		}
 		return next
 	}
+}
+
+// fixArg returns a copy of v if v refers to storage which can be modified later
+// (a frame slot, a struct field, an array element), so that the arguments of a
+// defer or go statement are fixed when the statement is executed, not when the
+// function is called.
+func fixArg(v reflect.Value) reflect.Value {
+	if !v.CanSet() {
+		return v
+	}
+	c := reflect.New(v.Type()).Elem()
+	c.Set(v)
+	return c
 }
 
 func genFunctionWrapper(n *node) func(*frame) reflect.Value {
@@ -1293,7 +1306,7 @@ func call(n *node) {
 			val := make([]reflect.Value, len(values)+1)
 			val[0] = value(f)
 			for i, v := range values {
-				val[i+1] = v(f)
+				val[i+1] = fixArg(v(f))
 			}
 			f.deferred = append([][]reflect.Value{val}, f.deferred...)
 			return tnext
@@ -1570,7 +1583,7 @@ func callBin(n *node) {
 			val := make([]reflect.Value, l+1)
 			val[0] = value(f)
 			for i, v := range values {
-				val[i+1] = getBinValue(getMapType, v, f)
+				val[i+1] = fixArg(getBinValue(getMapType, v, f))
 			}
 			f.deferred = append([][]reflect.Value{val}, f.deferred...)
 			return tnext
